@@ -10,6 +10,7 @@ import (
 	"time"
 
 	"github.com/mdzio/go-mqtt/message"
+	"github.com/mdzio/go-mqtt/service"
 
 	"verif/harness/out"
 	"verif/harness/rawclient"
@@ -42,6 +43,7 @@ type c12Req struct {
 	wireID   uint16
 	termSent int64 // seq at which the peer sent the (first) terminal ack
 	forced   bool
+	nocb     bool // issued without a completion function (fire and forget)
 }
 
 func queueOf(kind string) string {
@@ -143,13 +145,21 @@ func c12Script(idx int, seed uint64, order string, forceRace bool) {
 		reqs = append(reqs, q)
 		trace = append(trace, fmt.Sprintf("issue #%d %s", i, q.kind))
 		mu.Unlock()
-		cb := func(msg, ack message.Message, err error) error {
+		var cb service.OnCompleteFunc = func(msg, ack message.Message, err error) error {
 			t := tick()
 			mu.Lock()
 			q.fired = append(q.fired, t)
 			trace = append(trace, fmt.Sprintf("t%d completion #%d %s", t, i, q.kind))
 			mu.Unlock()
 			return nil
+		}
+		// every fourth request is fire-and-forget: the requests behind it complete all the same
+		if !q.forced && r.Intn(4) == 0 {
+			q.nocb, cb = true, nil
+			out.Count("c12.requests_without_completion", 1)
+			mu.Lock()
+			trace = append(trace, fmt.Sprintf("#%d has no completion function", i))
+			mu.Unlock()
 		}
 		atomic.StoreInt64(&curIssue, int64(i))
 		q.issuedAt = tick()
@@ -349,7 +359,7 @@ func c12Script(idx int, seed uint64, order string, forceRace bool) {
 	}
 	// QoS 0 completes before Publish returns
 	for _, q := range reqs {
-		if q.kind == "pub0" {
+		if q.kind == "pub0" && !q.nocb {
 			mu.Lock()
 			f := append([]int64{}, q.fired...)
 			mu.Unlock()
@@ -424,7 +434,7 @@ func c12Script(idx int, seed uint64, order string, forceRace bool) {
 	mu.Lock()
 	defer mu.Unlock()
 	for _, q := range reqs {
-		if q.kind == "pub0" {
+		if q.kind == "pub0" || q.nocb {
 			continue
 		}
 		switch {
